@@ -208,6 +208,8 @@ KNOWN = ("G0", "G1", "G2", "G3", "G10", "G11", "G20", "G21", "G28", "G90", "G91"
 # ----------------------------------------------------------------------------------------------------------
 def number(rng, big=True):
     kind = rng.choice(["int", "int", "dec", "dec", "neg", "plus", "ldot", "tdot", "tiny", "huge", "zero", "exp"])
+    if big and rng.random() < 0.004:
+        return rng.choice(["", "-"]) + str(rng.randrange(1, 10)) + "0" * rng.choice([40, 160, 200, 310])
     if kind == "int":
         return str(rng.randrange(0, 250))
     if kind == "dec":
